@@ -16,6 +16,7 @@ func init() { register("C14", checkC14) }
 func checkC14(c *Check) {
 	p := c.P
 	c.configuredHoldTimeProvenance("C14.1 configured-hold-time")
+	c.routerIDAccepted("C14.1 router-id-source")
 	fn := p.Fn("newOpenMessage")
 	if fn == nil || len(fn.Params) != 4 {
 		c.undecided("C14.anchor", "newOpenMessage", "signature", "-", "expected (asn, holdTime, bgpID, caps)")
@@ -393,6 +394,15 @@ func (c *Check) openEncodeLayout(rule string) {
 					return isC && cv == 0
 				}, What: "byte(len(params))"},
 				{Kind: "bytes", What: "the encoded optional parameters"},
+			}
+			if params == nil && len(lay) == len(pats)-1 {
+				// no optional parameters in this state (the empty byte string
+				// is not a segment): the length octet is 0 and nothing follows
+				pats = pats[:len(pats)-1]
+				pats[len(pats)-1].Pred = func(v *Expr) bool {
+					z, isZ := st.rangeOf(v).IsConst()
+					return isZ && z == 0
+				}
 			}
 			if ok, d := matchLayout(lay, pats); !ok {
 				probs = append(probs, "body must be version, asn, holdTime, bgpID, len(params), params: "+d)
